@@ -748,7 +748,9 @@ class UDSClient:
         :return: The response of the server.
         """
         return await self.request(
-            service.ShortTermAdjustmentRequest(data_identifier, control_enable_mask_record),
+            service.ShortTermAdjustmentRequest(
+                data_identifier, control_states, control_enable_mask_record
+            ),
             config,
         )
 
